@@ -375,6 +375,33 @@ def s_save_flow_c37(vc):
     return C39.s_save_flow.fn(vc)
 
 
+@scenario("Save.response_or_error_completes_plain_http", functions=[SVR + ".response", SVR + ".error", SVR + ".save_flow"])
+def s_http_completion(vc):
+    """response/error is the LAST hook of an HTTP flow unless it is a WebSocket flow (flow.websocket set: websocket_end follows).
+    Whatever the status code (incl. 101 answered without a WebSocket: websocket option off, bad Sec-WebSocket-Version, upgrade
+    to another protocol) the finished flow must be in the stream file when the hook returns."""
+    from props import C39
+    hook = vc.case("hook", ["response", "error"])
+    is_ws = vc.case("flow.websocket", [False, True])
+    has_resp = vc.case("has_response", [True, False]) if hook == "error" else True
+    status = vc.sym_int("status_code", lo=100, hi=999)
+    resp = vc.new("mitmproxy.http:Response", data=vc.new("mitmproxy.http:ResponseData", status_code=status)) if has_resp else None
+    f = vc.new("mitmproxy.http:HTTPFlow", id="f", response=resp, websocket=vc.new("mitmproxy.websocket:WebSocketData") if is_ws else None)
+    other = vc.new("mitmproxy.tcp:TCPFlow", id="other")
+    w0 = C39.mk_writer(vc)
+    sa = C39.mk_save(vc, w0, [f, other])
+    written = []
+    C39.install_writer_summaries(vc, written)
+    out = vc.call(SVR + "." + hook, sa, f)
+    vc.ensure("no_exception", out.ok)
+    if is_ws:
+        vc.ensure("websocket_flow.not_written_before_websocket_end", len(written) == 0)
+        vc.ensure("websocket_flow.stays_open", C39.same_members(vc, sa.active_flows, [f, other]))
+    else:
+        vc.ensure("plain_http.written_once_at_its_last_hook_for_every_status", len(written) == 1 and written[0][0] is w0 and written[0][1] is f)
+        vc.ensure("plain_http.no_longer_open", C39.same_members(vc, sa.active_flows, [other]))
+
+
 class StubNow:
     def strftime(self, fmt):  # pragma: no cover - replaced by a summary (scripted clock)
         raise NotImplementedError
@@ -646,7 +673,7 @@ def _stream_save_sequences(b, tier, seed):
     import os
     import tempfile
     HOOKS = {
-        "http": ("request", ["response", "error"]), "ws": ("request", ["websocket_end"]),
+        "http": ("request", ["response", "error"]), "http_101": ("request", ["response", "error"]), "ws": ("request", ["websocket_end"]),
         "tcp": ("tcp_start", ["tcp_end", "tcp_error"]), "udp": ("udp_start", ["udp_end", "udp_error"]),
         "dns": ("dns_request", ["dns_response", "dns_error"]),
     }
@@ -654,7 +681,7 @@ def _stream_save_sequences(b, tier, seed):
     rnd = random.Random(seed)
     combos = [c for c in itertools.product(kinds, repeat=2)] + [tuple(rnd.choice(kinds) for _ in range(3)) for _ in range(6 if tier == "quick" else 40)]
     for combo in combos:
-        flows = [ioflows.mk_flow(k) for k in combo]
+        flows = [_mk(k) for k in combo]
         # interleaving: all starts, then completions in a seeded order, shutdown after a seeded number of completions
         order = list(range(len(flows)))
         rnd.shuffle(order)
@@ -682,6 +709,10 @@ def _stream_save_sequences(b, tier, seed):
                 getattr(sa, rnd.choice(HOOKS[k][1]))(f)
                 expected_written.append(f)
                 snap("complete")
+                got_now, end_now = ioflows.read_all(bytes(fm.durable))
+                if end_now != "clean" or [g.id for g in got_now] != [x.id for x in expected_written]:
+                    b.fail("stream.complete_up_to_the_last_finished_flow_in_order", {"flows": list(combo), "completion_order": order, "after_completions": n + 1},
+                           f"finished {[x.id[:8] for x in expected_written]}, file has {[g.id[:8] for g in got_now]} ({end_now})")
             remaining = [flows[i] for i in order[stop_after:]]
             sa.done()
             snap("done")
@@ -715,6 +746,21 @@ def _stream_save_sequences(b, tier, seed):
         _check_truncations(b, "stream:" + "+".join(combo), final, bounds, _states(expected_written + remaining_in_set_order(fm, remaining)), sorted(set(range(0, len(final) + 1, step)) | set(bounds) | {x - 1 for x in bounds[1:]} | {x + 1 for x in bounds[:-1]}))
 
 
+def _mk(kind):
+    """ioflows.mk_flow plus 'http_101': an HTTP flow answered with 101 Switching Protocols that is NOT a WebSocket flow
+    (flow.websocket is None; its response hook is its last hook)"""
+    from props import ioflows
+    if kind != "http_101":
+        return ioflows.mk_flow(kind)
+    f = ioflows.mk_flow("http")
+    f.response.status_code = 101
+    f.response.reason = b"Switching Protocols"
+    f.response.headers["connection"] = "upgrade"
+    f.response.headers["upgrade"] = "h2c"
+    assert f.websocket is None
+    return f
+
+
 def _rd_ids(path):
     import os
     from props import ioflows
@@ -725,7 +771,7 @@ def _rd_ids(path):
     return [f.id for f in got], end
 
 
-STREAM_HOOKS = {"http": ("request", "response"), "tcp": ("tcp_start", "tcp_end"), "udp": ("udp_start", "udp_end"), "dns": ("dns_request", "dns_response"),
+STREAM_HOOKS = {"http_101": ("request", "response"), "http": ("request", "response"), "tcp": ("tcp_start", "tcp_end"), "udp": ("udp_start", "udp_end"), "dns": ("dns_request", "dns_response"),
                 "http_err": ("request", "error"), "tcp_err": ("tcp_start", "tcp_error")}
 
 
@@ -745,7 +791,7 @@ def _stream_save_path_spellings(b, tier):
         spellings = [("plain", os.path.join(d, "a", "flows")), ("dot_segment", os.path.join(d, "b", ".", "flows")), ("double_slash", d + "//c//flows"),
                      ("trailing_dot", os.path.join(d, "e", "flows") + "/."), ("relative_dot", "./rel-flows"), ("relative_plain", "rel2/flows"),
                      ("dot_dir_parent", os.path.join(d, ".", "f", "flows"))]
-        kinds = ["http", "tcp", "dns", "udp"] if tier == "quick" else ["http", "tcp", "dns", "udp", "http_err", "tcp_err"]
+        kinds = ["http", "http_101", "tcp", "dns", "udp"] if tier == "quick" else ["http", "http_101", "tcp", "dns", "udp", "http_err", "tcp_err"]
         for label, path in spellings:
             for append in (False, True):
                 path = path.replace("flows", "flows-append") if append else path      # a file of its own per mode
@@ -758,7 +804,7 @@ def _stream_save_path_spellings(b, tier):
                     with taddons.context(sa) as tctx:
                         try:
                             tctx.configure(sa, save_stream_file=spec)
-                            flows = [ioflows.mk_flow(k) for k in kinds]
+                            flows = [_mk(k) for k in kinds]
                             done_ids = []
                             for f, k in zip(flows, kinds):
                                 getattr(sa, STREAM_HOOKS[k][0])(f)
@@ -812,7 +858,7 @@ def _stream_save_clock_rotation(b, tier):
             for append in (False, True):
                 sub = os.path.join(d, f"p{pi}{'a' if append else 'w'}")
                 spec = ("+" if append else "") + os.path.join(sub, "flows-%Y%m%d-%H%M")
-                kinds = ["http", "tcp", "dns", "udp"]
+                kinds = ["http", "http_101", "dns", "udp"] if pi % 2 else ["http_101", "tcp", "http", "dns"]
                 sa = save.Save()
                 inp = {"save_stream_file": "<tmp>/flows-%Y%m%d-%H%M", "mode": "append" if append else "overwrite", "clock_steps_s": plan}
                 b.case(("stream-clock", pi, append), nontrivial=any(plan))
@@ -821,7 +867,7 @@ def _stream_save_clock_rotation(b, tier):
                     with taddons.context(sa) as tctx:
                         try:
                             tctx.configure(sa, save_stream_file=spec)
-                            flows = [ioflows.mk_flow(k) for k in kinds]
+                            flows = [_mk(k) for k in kinds]
                             for f, k in zip(flows, kinds):
                                 getattr(sa, STREAM_HOOKS[k][0])(f)
                             done_ids = []
